@@ -98,14 +98,16 @@ DKeysDistinct(d) == \A i, j \in 1..Len(d) : i # j => d[i].k # d[j].k
 
 DictApply(op, a, d) ==
   CASE op = "setitem"    -> R(DPut(d, a.x, a.y), "")
-    [] op = "delitem"    -> IF DHas(d, a.x) THEN R(DDel(d, a.x), "") ELSE R(d, "KeyError")
-    [] op = "pop"        -> R(DDel(d, a.x), "")              \* pop(key, None)
+    \* del d[k] and pop(k) without a default: KeyError when the key is missing
+    [] op \in {"delitem", "pop1"} -> IF DHas(d, a.x) THEN R(DDel(d, a.x), "") ELSE R(d, "KeyError")
+    [] op = "ior"        -> R(DUpdate(d, a.ps), "")          \* d |= mapping / iterable of pairs
+    [] op = "pop"        -> R(DDel(d, a.x), "")              \* pop(key, default)
     [] op = "clear"      -> R(<<>>, "")
     [] op = "update"     -> R(DUpdate(d, a.ps), "")
     [] op = "setdefault" -> R(IF DHas(d, a.x) THEN d ELSE DPut(d, a.x, a.y), "")
     [] op = "popitem"    -> IF d = <<>> THEN R(d, "KeyError") ELSE R(SubSeq(d, 1, Len(d) - 1), "")
     [] OTHER -> R(d, "?")
-IsDictOp(op) == op \in {"setitem", "delitem", "pop", "clear", "update", "setdefault", "popitem"}
+IsDictOp(op) == op \in {"setitem", "delitem", "pop", "pop1", "ior", "clear", "update", "setdefault", "popitem"}
 
 \* dump_header of a dict: key alone when the value is None, else key=quoted value
 SerPair(p) == IF p.v = None THEN p.k ELSE p.k \o <<61>> \o Quote(p.v[1], TRUE)
@@ -197,7 +199,7 @@ WAApply(op, a, w) ==
     [] op \in {"setitem", "setattr"} -> R([w EXCEPT !.ps = IF a.y = None THEN DDel(w.ps, a.x) ELSE DPut(w.ps, a.x, a.y)], "")
     [] op \in {"delitem", "delattr"} -> R([w EXCEPT !.ps = DDel(w.ps, a.x)], "")
     [] OTHER -> R(w, "?")
-PDictOp(op) == CASE op = "p_setitem" -> "setitem" [] op = "p_delitem" -> "delitem" [] op = "p_pop" -> "pop"
+PDictOp(op) == CASE op = "p_pop1" -> "pop1" [] op = "p_ior" -> "ior" [] op = "p_setitem" -> "setitem" [] op = "p_delitem" -> "delitem" [] op = "p_pop" -> "pop"
                  [] op = "p_clear" -> "clear" [] op = "p_update" -> "update" [] op = "p_setdefault" -> "setdefault"
                  [] op = "p_popitem" -> "popitem" [] OTHER -> "?"
 WAStep(op, a, w) == IF PDictOp(op) # "?"
